@@ -463,7 +463,10 @@ impl Everything {
     }
 
     /// A valid payload for (target, variant); `r` varies the details.
-    pub fn payload(&self, t: Target, variant: &str, r: u64) -> Option<Binary> {
+    /// `caller` lets the payload name the caller itself where a message carries the identity it
+    /// is checked against (bits 8.. of `r` choose: canonical / the caller / somebody else, and a
+    /// registered / unregistered asset).
+    pub fn payload(&self, t: Target, variant: &str, r: u64, caller: &Addr) -> Option<Binary> {
         let small = (r % 1000) as u128;
         let fee = pool_fee([(r % 7) as u128 * 1_000_000_000_000_000, 2_000_000_000_000_000, 0]);
         let someaddr = ["alice", "bob", "carol", "newowner"][(r % 4) as usize].to_string();
@@ -601,15 +604,31 @@ impl Everything {
             (Target::Vault, "callback") => to_json_binary(&vault::ExecuteMsg::Callback(vault::CallbackMsg::AfterTrade { old_balance: Uint128::new(small), loan_amount: Uint128::zero() })).unwrap(),
             (Target::VaultRouter, "update_config") => to_json_binary(&vault_router::ExecuteMsg::UpdateConfig { owner: None, vault_factory_addr: Some(someaddr) }).unwrap(),
             (Target::VaultRouter, "next_loan") => to_json_binary(&vault_router::ExecuteMsg::NextLoan {
-                initiator: Addr::unchecked(someaddr),
-                source_vault: self.vault.to_string(),
-                source_vault_asset_info: self.vault_asset.clone(),
+                initiator: Addr::unchecked(someaddr.clone()),
+                source_vault: if *caller == self.vault {
+                    self.vault.to_string()
+                } else {
+                    match (r >> 8) % 3 {
+                        0 => self.vault.to_string(),
+                        1 => caller.to_string(),
+                        _ => someaddr,
+                    }
+                },
+                source_vault_asset_info: if *caller == self.vault {
+                    self.vault_asset.clone()
+                } else {
+                    match (r >> 10) % 3 {
+                        0 => self.vault_asset.clone(),
+                        1 => native("uunregistered"),
+                        _ => native("uwhale"),
+                    }
+                },
                 payload: vec![],
                 to_loan: vec![],
                 loaned_assets: vec![],
             })
             .unwrap(),
-            (Target::VaultRouter, "complete_loan") => to_json_binary(&vault_router::ExecuteMsg::CompleteLoan { initiator: Addr::unchecked(someaddr), loaned_assets: vec![] }).unwrap(),
+            (Target::VaultRouter, "complete_loan") => to_json_binary(&vault_router::ExecuteMsg::CompleteLoan { initiator: if (r >> 8) % 2 == 1 { caller.clone() } else { Addr::unchecked(someaddr) }, loaned_assets: vec![] }).unwrap(),
             (Target::Collector, "forward_fees") => {
                 let e: fd::EpochResponse = self.w.query(&self.addr(Target::Distributor), &fd::QueryMsg::CurrentEpoch {}).ok()?;
                 to_json_binary(&fc::ExecuteMsg::ForwardFees { epoch: e.epoch, forward_fees_as: native("uwhale") }).unwrap()
@@ -664,7 +683,7 @@ impl Check for PrivilegeMatrix {
         "privilege_matrix"
     }
     fn rule(&self) -> &'static str {
-        "hand-written table of every ExecuteMsg variant of 14 contracts (pool factory, pair, trio, router, frontend helper, incentive factory, incentive, vault factory, vault, vault router, fee collector, fee distributor, whale lair, epoch manager), verified at start-up against the variant names derived from the message schemas; every privileged / internal variant x ten caller roles (configured owner, hub owner account, prospective new owner, user, sibling contract, the contract itself, pool factory, vault factory, fee distributor, a registered vault) x {before, after an ownership transfer} is enumerated exhaustively as the regression corpus, and random payload details are drawn on top. Oracle: a caller outside the authorised set => rejected and full world snapshot unchanged; the authorised caller with the canonical payload => accepted (except migrations, whose payload is refused for version reasons); after a transfer the previous owner is rejected and the new owner accepted; AssertMinimumReceive is effect-free for every caller. Non-trivial: an unauthorised role was exercised; distinct by (variant, role, transfer, payload)."
+        "hand-written table of every ExecuteMsg variant of 14 contracts (pool factory, pair, trio, router, frontend helper, incentive factory, incentive, vault factory, vault, vault router, fee collector, fee distributor, whale lair, epoch manager), verified at start-up against the variant names derived from the message schemas; every privileged / internal variant x ten caller roles (configured owner, hub owner account, prospective new owner, user, sibling contract, the contract itself, pool factory, vault factory, fee distributor, a registered vault) x {before, after an ownership transfer} is enumerated exhaustively as the regression corpus with the canonical payload and with payloads that name the caller itself / an unregistered asset where a message carries the identity it is checked against (vault-router NextLoan source_vault + asset, CompleteLoan initiator), and random payload details are drawn on top. Oracle: a caller outside the authorised set => rejected and full world snapshot unchanged; the authorised caller with the canonical payload => accepted (except migrations, whose payload is refused for version reasons); after a transfer the previous owner is rejected and the new owner accepted; AssertMinimumReceive is effect-free for every caller. Non-trivial: an unauthorised role was exercised; distinct by (variant, role, transfer, payload)."
     }
     fn strategy(&self, _tier: Tier) -> BoxedStrategy<Case> {
         let n = privileged_entries().len() as u16;
@@ -685,12 +704,16 @@ impl Check for PrivilegeMatrix {
         for i in privileged_entries() {
             for role in 0..10u8 {
                 for after_transfer in [false, true] {
-                    out.push(Case {
-                        entry: i as u16,
-                        role,
-                        after_transfer,
-                        payload: 0,
-                    });
+                    // canonical payload, and the payload that names the caller itself together
+                    // with an unregistered asset wherever the message carries such fields
+                    for payload in [0u64, (1 << 8) | (1 << 10), 1 << 8, 1 << 10, 2 << 8] {
+                        out.push(Case {
+                            entry: i as u16,
+                            role,
+                            after_transfer,
+                            payload,
+                        });
+                    }
                 }
             }
         }
@@ -716,17 +739,6 @@ impl Check for PrivilegeMatrix {
                 transferred = true;
             }
         }
-        // epoch manager remove_hook needs a hook to remove: add one as the current admin
-        let payload = if e.target == Target::EpochManager && e.variant == "remove_hook" {
-            let m = ev.manager.clone();
-            let _ = ev.w.exec(&owner_now, &m, &em::ExecuteMsg::AddHook { contract_addr: "carol".to_string() }, &[]);
-            to_json_binary(&em::ExecuteMsg::RemoveHook { contract_addr: "carol".to_string() }).unwrap()
-        } else {
-            match ev.payload(e.target, e.variant, c.payload) {
-                Some(p) => p,
-                None => return Err(Fail::new(format!("no payload for {:?}::{}", e.target, e.variant))),
-            }
-        };
         let caller = match c.role {
             0 => owner_now.clone(),
             1 => hub_owner.clone(),
@@ -738,6 +750,17 @@ impl Check for PrivilegeMatrix {
             7 => ev.addr(Target::VaultFactory),
             8 => ev.addr(Target::Distributor),
             _ => ev.vault.clone(),
+        };
+        // epoch manager remove_hook needs a hook to remove: add one as the current admin
+        let payload = if e.target == Target::EpochManager && e.variant == "remove_hook" {
+            let m = ev.manager.clone();
+            let _ = ev.w.exec(&owner_now, &m, &em::ExecuteMsg::AddHook { contract_addr: "carol".to_string() }, &[]);
+            to_json_binary(&em::ExecuteMsg::RemoveHook { contract_addr: "carol".to_string() }).unwrap()
+        } else {
+            match ev.payload(e.target, e.variant, c.payload, &caller) {
+                Some(p) => p,
+                None => return Err(Fail::new(format!("no payload for {:?}::{}", e.target, e.variant))),
+            }
         };
         let authorised = match e.kind {
             Kind::Owner { .. } => caller == owner_now,
